@@ -73,8 +73,12 @@ def rule_prepare_order(ctx):
     ctx.ob(R, fp, fp.node, ok, "order gate -> last commit -> revoke callback is broken", text="order")
     if lc:
         ctx.ob(R, fp, lc[0], unparse(arg_of(lc[0].ast.value, 0)) == fp.params()[1], "last commit is not of the previous assignment", text="commit-previous")
-        nt = [t for t in c.nodes if t.kind == "test" and is_none_test(t.ast, negate=True) is not None and unparse(is_none_test(t.ast, negate=True)) == fp.params()[1]]
-        ok = bool(nt) and c.dominated_by_branch(nt[0], "T", lc[0]) and bool(rv) and rv[0] not in c.reachable([m for m, l in nt[0].succ if l == "T"], avoid=set(lc), exc=False, include_src=True)
+        from ..rulekit import none_tests
+        nt = none_tests(c, fp.params()[1])
+        ok = bool(nt)
+        if ok:
+            t0, _l_none, l_some = nt[0]
+            ok = c.dominated_by_branch(t0, l_some, lc[0]) and bool(rv) and rv[0] not in c.reachable([m for m, l in t0.succ if l == l_some], avoid=set(lc), exc=False, include_src=True)
         ctx.ob(R, fp, lc[0], ok, "with a previous assignment the revoke callback can run without the last commit having been attempted", text="commit-on-every-path")
         hs = [m for m, l in lc[0].succ if l == "exc" and m.kind == "handler"]
         ctx.ob(R, fp, lc[0], any("KafkaError" in unparse(h.ast.type) for h in hs), "a failed last commit aborts the rebalance", text="commit-failure-tolerated")
